@@ -51,7 +51,7 @@ def regexItem : Nat → TplItem → String
   | _+1, .number => "(\\d+(\\.\\d+)?)"
   | _+1, .boolean => "(true|false)"
   | _+1, .lit l => if l.isEmpty then "" else "(" ++ escapeRegex l ++ ")"
-  | n+1, .oneOf vs => "(" ++ "|".intercalate ((vs.map (regexItem n)).filter (fun s => !s.isEmpty)) ++ ")"
+  | n+1, .oneOf vs => "(" ++ "|".intercalate (vs.map (regexItem n)) ++ ")"
 
 def regexSource (tpl : Tpl) : String :=
   let inner := String.join (tpl.map (regexItem 20))
